@@ -84,6 +84,35 @@ def d_line_start(chk, F, f):
     chk.expect(ok, "C14.D-line-start", "pull_line|cuts at Newline token", f"{g.file}:{g.line}",
                "pull_line no longer ends a line at the Newline token: the two scanners disagree on line boundaries",
                sample=f"{g.file}:{g.line}: line ends at tok.kind == Newline")
+    # ... and ONLY there: every way out of the token loop other than the end of the stream lies under a `== Newline` outcome,
+    # and the decision never looks at the input text (the metadata-only scanner cannot follow a text-based rule)
+    heads = [b for b, t in g.calls() if (callee_key(t) or "").endswith(("Iterator>::next", "Iterator::next"))]
+    loops = [scc for scc in g.sccs() if any(h in scc for h in heads)]
+    exits = []
+    for scc in loops:
+        for u in scc:
+            for v in g.succ[u]:
+                if v not in scc and v in g.live:
+                    exits.append((u, v))
+    nl_edges = [e_ for e_, sub in cuts]
+    def natural(u, v):
+        # the None arm of the iterator: the switch on the discriminant of next()'s result
+        t = g.blocks[u]["term"]
+        return t["k"] == "switch" and any(st["k"] == "assign" and st["rv"]["k"] == "discr" and "Option" in st["rv"].get("ty", "") for st in g.blocks[u]["stmts"])
+    extra = [(u, v) for u, v in exits if not natural(u, v) and g.blocks[u]["term"]["k"] not in ("drop", "unwind") and not any(e_ == (u, v) or g.edge_dominates(e_, u) for e_ in nl_edges)
+             and g.blocks[v]["term"]["k"] != "resume"]
+    chk.expect(bool(loops) and not extra, "C14.D-line-start", "pull_line|no other line end", g.where(extra[0][0]) if extra else f"{g.file}:{g.line}",
+               "pull_line can end a line somewhere other than at a Newline token: the full scanner and the metadata-only scanner (which only knows Newline tokens) "
+               "would split the document differently", sample=f"{g.file}:{g.line}: {len(exits)} loop exits, all at end of stream or under tok.kind == Newline")
+    reads_input = [st for i, j, st in g.iter_stmts() if st["k"] == "assign" and ".input" in json_places(st)]
+    chk.expect(not reads_input, "C14.D-line-start", "pull_line|tokens only", f"{g.file}:{reads_input[0].get('line') if reads_input else g.line}",
+               "pull_line reads self.input: line boundaries must be decided from tokens alone, as next_metadata_block does",
+               sample=f"{g.file}:{g.line}: pull_line never touches self.input")
+
+
+def json_places(st):
+    import json as _j
+    return _j.dumps(st)
 
 
 def full(e):
